@@ -9,6 +9,7 @@ Contract checked at run time on the REAL code (compositionality of the streaming
        M2.double_cut   every pair of cut positions (long strings: every pair whose middle or last chunk is short)
        M3.regular_cuts every buffer size 1..len-1 (size 1 = byte-at-a-time)
        M4.multi_cut    every composition (len <= 10), every run of three short chunks anywhere, seeded random k-cuts
+       M0.runaway_sections / hang   the parser emitted more sections than the string has bytes, or did not return
   A0 (anti-vacuity anchor, complete well-formed bodies only) the one-piece result has no error and its header/data
      ranges are those of the independent reference splitter spec/multipart_spec.split ("each part's header block and
      exact data range"): a parser that finds nothing would satisfy M trivially.
@@ -32,22 +33,28 @@ import random
 from bounded.common import FragStream, make_environ, serve, fail, chunk_encode
 from spec import multipart_spec as ms
 
-BOUND = ('(ss) boundary X, alphabet {CR,LF,-,X,h}: every well-formed-prefix string of length <=12 (quick) / <=14 (thorough) '
-         '[epilogue <=3]; every body --X CRLF h CRLFCRLF D CRLF--X T with D = every string of length <=3 (quick) / <=5 '
-         '(thorough) over the alphabet and T in 9 terminators (close, close+CRLF+each letter, epilogues that look like '
-         'delimiters) + a second part with 5 data values, and ALL their prefixes; every header block of <=3 lines over {h,-,X} '
-         '(line lengths <=3/2/1); D = every concatenation of <=2 (quick) / <=3 (thorough) tokens out of 9 delimiter look-alikes, '
-         'for boundaries X and --a-.  (gen) boundaries {X, -, --a-, bnd, a b, 38-char WebKit, 70 chars} x 0-4 parts x header '
-         'blocks {h, 2 lines, RFC 7578 text, RFC 7578 file+type} x 30 adversarial data values (CR/LF/dash runs, every proper '
-         'prefix of the delimiter, delimiter with last byte changed, window-sized fillers, all 256 byte values) x endings '
-         '{none, CRLF, epilogue, epilogue that is a close-delimiter}, and ALL their prefixes (each distinct prefix once).  '
-         'Per string: every single cut, every double cut (strings <=64 (quick) / <=140 (thorough) bytes and complete bodies '
-         '<=320 bytes in thorough; longer: all pairs with a middle chunk <=3 or a last chunk <= delimiter+6), every regular '
-         'buffer size 1..len-1, every composition for len <=10, every run of three chunks of sizes 1..3, seeded random '
-         '3..7-cuts.  (app) RFC 7578 bodies through Ombott.__call__/Request.forms+files: every single cut and near double cuts '
-         'as short reads, byte/2/3-at-a-time, every max_memfile_size from non-file-bytes+48 to len(body) (spooled path), '
-         'chunked framing with the cuts as chunk sizes; complete bodies and prefixes.  Exhaustive over the listed space '
-         'except the seeded random cuts/bodies.')
+BOUND = ('unit (MultipartMarkup.parse), boundary X, alphabet {CR,LF,-,X,h}: (dfs) EVERY well-formed-prefix string of length <=12 '
+         '(quick) / <=14 (thorough), epilogue <=3; (ss) every body --X CRLF h CRLFCRLF D CRLF--X T with D = every string of '
+         'length <=3 (quick) / <=5 (thorough) over the alphabet, T = close+CRLF+each letter and 3 epilogues that look like '
+         'delimiters (all 9 T for |D|<=1 quick / <=4 thorough), a second part with 5 data values; every header block of <=3 lines '
+         'over {h,-,X} (line lengths <=3 / <=2,<=2 / 1,1,1); D = every concatenation of <=2 (quick) / <=3 (thorough) of 9 delimiter '
+         'look-alike tokens for boundaries X and --a-; and ALL prefixes of all these bodies.  (gen) boundaries {X, -, --a-, bnd, '
+         '"a b", 38-char WebKit, 70 chars} x 0-4 parts x header blocks {h, 2 lines, RFC 7578 text, RFC 7578 file+type} x ~40 '
+         'adversarial data values (CR/LF/dash runs, every proper prefix of the delimiter, delimiter with last byte changed or '
+         'interrupted by exactly one/two search windows of filler, window-sized fillers +-1, next part starting with every '
+         'delimiter remainder, all 256 byte values) x endings {none, CRLF, epilogue, epilogue that is a close-delimiter}, and '
+         'their prefixes (all of them for bodies of short boundaries; for long boundaries / long data every k-th plus windows '
+         'around every delimiter, header end and the close).  Each distinct string once, checked with: every single cut; every '
+         'double cut (strings <=56 bytes quick / <=100 thorough, complete bodies <=320 bytes thorough; longer strings: every pair '
+         'with a middle chunk <=3 or a last chunk of 1..12 or delimiter-2..delimiter+6 bytes); every regular buffer size incl. '
+         'byte-at-a-time; every composition for length <=10; every run of three chunks of sizes 1..2 (quick) / 1..3 (thorough) at '
+         'every offset; 4 (quick) / 16 (thorough) seeded random 3..7-cuts.  (app) through Ombott.__call__ -> Request.forms/'
+         'files, 4 RFC 7578 field lists (text + uploads with adversarial content) x boundaries {X, --a-} (quick) + {bnd, WebKit} '
+         '(thorough) x endings, complete bodies and prefixes (every prefix near the close, every 29th/7th elsewhere): every '
+         'single cut and near double cuts as scripted short reads, 1/2/3 bytes at a time, short last chunk, EVERY '
+         'max_memfile_size from non-file-bytes+48 to len(body) with buffer-regular reads (body spooled to a temporary file), '
+         'chunked framing with the cuts as chunk sizes.  The listed space is enumerated completely; only the random k-cuts and the '
+         'composition of multi-part bodies are seeded.')
 NONTRIVIAL_RULE = ('distinct (kind, boundary, string/body, prefix length, division plan); non-trivial = the string is at least 2 '
                    'bytes long (a division exists) and reaches beyond the first dash-boundary')
 
@@ -153,7 +160,11 @@ def _ss_bodies(tier):
     for d in _strings_upto(kd):
         if delim in CRLF + d:
             continue
-        for t in terms:
+        if tier == 'quick':
+            tt = terms if len(d) <= 1 else terms[:6]
+        else:
+            tt = terms if len(d) <= 4 else terms[1:2]
+        for t in tt:
             yield bd, stem + d + delim + t
         if len(d) <= kd - 1:
             for d2 in second:
@@ -161,7 +172,7 @@ def _ss_bodies(tier):
     for hb in _header_blocks():
         if any(line.startswith(dash) for line in hb.split(CRLF)):
             continue
-        for d in (b'', b'\r', b'-'):
+        for d in ((b'\r',) if tier == 'quick' else (b'', b'\r', b'-')):
             yield bd, dash + CRLF + hb + CRLF + CRLF + d + delim + b'--' + CRLF
     for e in _strings_upto(3):
         yield bd, dash + b'--' + CRLF + e
@@ -286,11 +297,11 @@ def _gen_bodies(tier, seed):
         if quick:
             picks = [(0, 1, 1)] if bd is WEBKIT else [(0, 2, 2)]
         else:
-            picks = [(di % 2, di, di % 4) for di in range(0, len(data), 2 if bd is WEBKIT else 5)]
+            picks = [(di % 2, di, di % 4) for di in range(0, len(data), 3 if bd is WEBKIT else 7)]
         for hi, di, ei in picks:
             yield bd, _build([(hdrs[hi], data[di])], bd, ENDINGS[ei]), (sel if not quick else sel * 2)
         if not quick:
-            yield bd, _build([(hdrs[2], data[12]), (hdrs[3], data[13]), (b'h', b'')], bd, ENDINGS[3]), sel * 2
+            yield bd, _build([(hdrs[2], data[12]), (hdrs[3], data[13]), (b'h', b'')], bd, ENDINGS[3]), sel * 3
 
 
 def _selected(body, bd, step):
@@ -385,16 +396,16 @@ def _app_cases(tier, seed):
                     def case(plan, lo, hi, step=1, **kw):
                         return dict(kind='app', bd=bd, body=body, clen=clen, nonfile=nonfile, plan=plan, lo=lo, hi=hi, step=step, **kw)
                     # (a) scripted short reads with a large buffer: every single cut, byte/2/3-at-a-time
-                    for a, b in _ranges(1, clen, 32):
-                        yield case('single', a, b)
+                    for a, b in _ranges(1, clen, 32 if (full or not quick) else 96):
+                        yield case('single', a, b, 1 if (full or not quick) else 3)
                     yield case('tails', 1, 4)
                     # near double cuts (middle chunk 1..3) and short last chunk
                     if full or not quick:
-                        lo = 1 if full else max(1, clen - 3 * tl)
+                        lo = 1 if full else max(1, clen - min(3 * tl, 40))
                         for a, b in _ranges(lo, clen - 1, 12):
                             yield case('near', a, b, 2 if quick else 1)
-                        for a, b in _ranges(lo, clen - 1, 4 if not quick else 12):
-                            yield case('lastshort', a, b, 1 if not quick else 3, w=tl + 5)
+                        for a, b in _ranges(lo, clen - 1, 12):
+                            yield case('lastshort', a, b, 3 if (quick or full) else 1, w=min(tl + 5, 14))
                     # (b) every max_memfile_size from the safe lower bound to the body length: regular reads, spooled body
                     lo = nonfile + 48
                     if clen > lo and (full or clen % (7 if quick else 3) == 0):
@@ -423,15 +434,51 @@ def gen_cases(tier, seed):
 
 # ------------------------------------------------------------------------------------------------ checking
 
+class _Runaway(BaseException):
+    """raised by the guard below; a BaseException so that MultipartMarkup.parse (except Exception) cannot swallow it"""
+
+
+class _Bounded(list):
+    """`markups` list that refuses to grow beyond any possible number of sections: a broken parser that loops while
+    emitting sections is reported as a failure instead of eating the machine's memory."""
+    limit = 0
+
+    def append(self, item):
+        if len(self) >= self.limit:
+            raise _Runaway()
+        list.append(self, item)
+
+
+def setup():
+    """Backstop for run-away allocations inside the code under check (per worker process)."""
+    try:
+        import resource
+        soft, hard = resource.getrlimit(resource.RLIMIT_AS)
+        cap = 3 << 30
+        if soft == resource.RLIM_INFINITY or soft > cap:
+            resource.setrlimit(resource.RLIMIT_AS, (cap, hard))
+    except Exception:   # noqa - the guard is optional
+        pass
+
+
 def _feed(bd, s, cuts):
     from ombott.request_pkg.multipart import MultipartMarkup
     m = MultipartMarkup(bd)
+    if type(m.markups) is list and not m.markups:
+        guard = _Bounded()
+        guard.limit = 2 * len(s) + 8
+        m.markups = guard
     prev = 0
     for c in cuts:
         m.parse(s[prev:c])
         prev = c
     m.parse(s[prev:])
     return m
+
+
+def _hung(m):
+    """the runner's per-case alarm fired inside parse(), which stored it as the parsing error"""
+    return type(m.error).__name__ == '_Hang'
 
 
 def _res(m):
@@ -456,10 +503,11 @@ def _divisions(s, bd, dbl, nrand, tri=3):
             for j in range(i + 1, n):
                 yield 'M2.double_cut', (i, j)
     else:
-        w = len(bd) + 4 + 6
+        tl = len(bd) + 4
+        last = sorted(set(range(1, 13)) | set(range(max(1, tl - 2), tl + 7)))     # sizes of a short last chunk
         for i in range(1, n):
             js = set(range(i + 1, min(i + 4, n)))
-            js.update(range(max(i + 1, n - w), n))
+            js.update(n - w for w in last if n - w > i)
             for j in sorted(js):
                 yield 'M2.double_cut', (i, j)
     if n <= 10:
@@ -500,7 +548,12 @@ def _run_mk(case):
     s, bd = case['s'], case['bd']
     if ms.wellformed_status(s, bd) is None:
         raise AssertionError('generator produced a string outside the well-formed space: %r' % (s,))
-    refm = _feed(bd, s, ())
+    try:
+        refm = _feed(bd, s, ())
+    except _Runaway:
+        return fail('M0.runaway_sections', s=s, boundary=bd, cuts=[])
+    if _hung(refm):
+        return fail('hang', s=s, boundary=bd, cuts=[])
     ref_markups, ref_err = refm.markups, type(refm.error)
     ref = _res(refm)
     if case['complete']:
@@ -508,9 +561,14 @@ def _run_mk(case):
         if f is not None:
             return f
     for clause, cuts in _divisions(s, bd, case['dbl'], case['nrand'], case.get('tri', 3)):
-        m = _feed(bd, s, cuts)
+        try:
+            m = _feed(bd, s, cuts)
+        except _Runaway:
+            return fail('M0.runaway_sections', s=s, boundary=bd, cuts=list(cuts))
         if m.markups != ref_markups or type(m.error) is not ref_err:
             cuts = list(cuts)
+            if _hung(m):
+                return fail('hang', s=s, boundary=bd, cuts=cuts)
             chunks = [s[a:b] for a, b in zip([0] + cuts, cuts + [len(s)])] if len(cuts) <= 8 else None
             return fail(clause, s=s, boundary=bd, cuts=cuts, chunks=chunks, expected=ref, observed=_res(m),
                         expected_error_text=repr(refm.error), observed_error_text=repr(m.error))
@@ -581,25 +639,55 @@ def _plans(case):
     raise ValueError(kind)
 
 
+def _reader_cuts(n, buff, script, tail):
+    """Cut positions the Content-Length reader produces: it asks for min(rest, buff) and feeds every answer as one chunk."""
+    cuts, pos, k = [], 0, 0
+    while pos < n:
+        lim = script[k] if k < len(script) else tail
+        k += 1
+        take = min(buff, n - pos)
+        if lim:
+            take = min(take, lim)
+        pos += take
+        if pos < n:
+            cuts.append(pos)
+    return cuts
+
+
+def _guard(bd, body, cuts):
+    """Run-away/hang guard in front of an application run (the same parser is driven by the body reader there)."""
+    try:
+        m = _feed(bd, body, cuts)
+    except _Runaway:
+        return fail('M0.runaway_sections', s=body, boundary=bd, cuts=cuts)
+    if _hung(m):
+        return fail('hang', s=body, boundary=bd, cuts=cuts)
+    return None
+
+
 def _run_app(case):
     bd, clen = case['bd'], case['clen']
     body = case['body'][:clen]
     n = len(body)
+    f = _guard(bd, body, [])
+    if f is not None:
+        return f
     ref, _ = _app_once(bd, body, clen, 2 * len(case['body']) + case['nonfile'] + 128, [], 0, False)
     for plan in _plans(case):
         chunks = plan.get('chunks')
         if chunks:
-            cuts = [0] + list(chunks) + [n]
-            wire = chunk_encode([body[a:b] for a, b in zip(cuts, cuts[1:]) if b > a])
-            got, stream = _app_once(bd, wire, None, plan['buff'], plan['script'], plan['tail'], True)
             fed = [c for c in chunks if 0 < c < n]
         else:
+            fed = _reader_cuts(n, plan['buff'], plan['script'], plan['tail'])
+        f = _guard(bd, body, fed)
+        if f is not None:
+            return f
+        if chunks:
+            cuts = [0] + fed + [n]
+            wire = chunk_encode([body[a:b] for a, b in zip(cuts, cuts[1:])])
+            got, stream = _app_once(bd, wire, None, plan['buff'], plan['script'], plan['tail'], True)
+        else:
             got, stream = _app_once(bd, body, clen, plan['buff'], plan['script'], plan['tail'], False)
-            fed, p = [], 0
-            for k in stream.answered:      # with Content-Length framing every non-empty read is fed as one chunk
-                p += k
-                if k and p < n:
-                    fed.append(p)
         if got != ref:
             return fail('E1.divided_vs_one_piece', boundary=bd, body=body, plan=plan, cuts=fed, expected=ref, observed=got)
     return None
@@ -639,7 +727,12 @@ def _is_d3(case, failure):
     e = _errs(case, failure)
     if ce is None or n <= ce or e is None:
         return False
-    return e[0] is None and e[1] == 'UnexpectedBodyEndError' and (ce - 1) in e[3]
+    if not (e[0] is None and e[1] == 'UnexpectedBodyEndError' and (ce - 1) in e[3]):
+        return False
+    cuts = [c for c in e[3] if isinstance(c, int)]
+    k = cuts.index(ce - 1)
+    nxt = cuts[k + 1] if k + 1 < len(cuts) else n
+    return nxt >= ce + 1        # the chunk that starts with the second hyphen holds at least one more byte
 
 
 def _is_d4(case, failure):
